@@ -604,10 +604,38 @@ def finalise_under_lock(flow, path):
 
 
 # ---- snapshot: files without any chunk
+def _chunkless_record(k, v, holder):
+    """k == <file>.path and v == {'path': k, 'chunks': [], 'digest': <file>.digest, 'metadata': <file>.metadata} with <file>
+    derived from `holder` (the loop element)"""
+    k, v = F.strip(k), F.strip(v)
+    if not (k[0] == 'attr' and k[2] == 'path' and F.mentions(k[1], holder)):
+        return False
+    fs = k[1]
+    items = dict_items(v)
+    return items is not None and set(items) == {'path', 'chunks', 'digest', 'metadata'} and items['path'] == k \
+        and items['chunks'] == ('list', 0, ()) and items['digest'] == ('attr', fs, 'digest') \
+        and items['metadata'] == ('attr', fs, 'metadata')
+
+
+def _listed_afterwards(later, uid):
+    return any(F.contains(x.a, lambda t: t[0] == 'call' and t[2][0] == 'attr' and t[2][2] == 'values' and F.sym_uid(t[2][1]) == uid)
+               for x in later if x.kind == 'call')
+
+
 def records_chunkless(path):
     """after the workers are done every streamed file that has no entry gets one with its digest / metadata and no chunks,
     in the dict whose values become the snapshot's file list"""
     for i, e in enumerate(path.events):
+        # the same as one statement: D.update({f.path: {…} for _, f in state.files if f.path not in D})
+        if e.kind == 'call' and e.a[0] == 'call' and e.a[2][0] == 'attr' and e.a[2][2] == 'update' and len(e.a[3]) == 1 \
+                and e.a[3][0][0] == 'comp' and e.a[3][0][2] == 'dict' and len(e.a[3][0][4]) == 1:
+            d, comp = e.a[2][1], e.a[3][0]
+            (it, elem, conds), (k, v) = comp[4][0], comp[3]
+            src = F.strip(unwrap_iter(it))
+            if src[0] == 'attr' and src[2] == 'files' and F.sym_uid(d) is not None and _chunkless_record(k, v, elem) \
+                    and [F.canon_lit(c, True) for c in conds] == [(('cmp', 'in', F.strip(k), F.strip(d)), False)] \
+                    and _listed_afterwards(path.events[i + 1:], F.sym_uid(d)):
+                return True
         if e.kind != 'loop' or e.a.kind != 'for':
             continue
         L = e.a
@@ -641,14 +669,7 @@ def records_chunkless(path):
                 continue
             D, K, V, is_sd = cands[0]
             k = F.strip(K)
-            if not (k[0] == 'attr' and k[2] == 'path' and F.mentions(k[1], ('elem', L.uid))):
-                ok = False
-                break
-            fs = k[1]
-            items = dict_items(F.strip(V))
-            if items is None or set(items) != {'path', 'chunks', 'digest', 'metadata'} or items['path'] != k \
-                    or items['chunks'] != ('list', 0, ()) or items['digest'] != ('attr', fs, 'digest') \
-                    or items['metadata'] != ('attr', fs, 'metadata'):
+            if not _chunkless_record(K, V, ('elem', L.uid)):
                 ok = False
                 break
             member = lits.get((k, F.strip(D)))
@@ -664,10 +685,7 @@ def records_chunkless(path):
         if not ok or not stored or d is None:
             continue
         # the dict is what the snapshot lists afterwards
-        uid = F.sym_uid(d)
-        later = path.events[i + 1:]
-        if any(F.contains(x.a, lambda t: t[0] == 'call' and t[2][0] == 'attr' and t[2][2] == 'values' and F.sym_uid(t[2][1]) == uid)
-               for x in later if x.kind == 'call'):
+        if _listed_afterwards(path.events[i + 1:], F.sym_uid(d)):
             return True
     return False
 
@@ -985,7 +1003,11 @@ def _uses(x, uid):
         return 'use' if has(x.a) else None
     if x.kind in ('store', 'aug'):
         return 'use' if has(x.b if x.kind == 'store' else x.c) or has(x.a) else None
+    if x.kind == 'call' and x.a[0] == 'comp':
+        return 'use' if has(x.a) else None
     if x.kind == 'call' and x.a[0] == 'call':
+        if x.c == 'inlined':
+            return None          # the helper's own events follow and are looked at one by one
         f = F.strip(x.a[2])
         root = f
         while root[0] == 'attr':
